@@ -98,16 +98,16 @@ PLAN = {
         assumptions=["registers are not linearizable by design (a new key becomes visible asynchronously): the clauses above are what the statement promises"],
     ),
     "C03": dict(
-        stages=[ls("C03", q=400), ls_async_quick("C03")],
-        rule=LS,
+        stages=[ls("C03", q=400), ls_async_quick("C03"), ga()],
+        rule=LS + " || " + GA + " (clause: below capacity nothing reaches on_evict before the deadline of the insert that wrote it, or without a TTL)",
         clauses=["visible iff now - t_insert < d", "get_ttl == ValueRef::ttl == d - (now - t_insert) exactly; Duration::MAX without TTL", "re-insert replaces the deadline (stored ttl/created compared)",
                  "TTL grid: 1 ms .. 100 h, insert offsets 0/1ns/.499/.5/.999999999 s, clock aimed at d-1ns/d/d+1ns and second boundaries"],
         minimum=dict(quick=dict(ls_histories=300, ls_ticks=10000, ls_reclaimed_by_ttl=500)),
         assumptions=["time is the hook's virtual clock (type substituted for SystemTime in src/ttl.rs; every line of Time stays live)"],
     ),
     "C04": dict(
-        stages=[ls("C04", q=400), ls_async_quick("C04")],
-        rule=LS + "; max_cost == sum of the per-key charges exactly (tight) so nothing may ever be refused or evicted",
+        stages=[ls("C04", q=400), ls_async_quick("C04"), ga()],
+        rule=LS + "; max_cost == sum of the per-key charges exactly (tight) so nothing may ever be refused or evicted || " + GA + " (clause: below capacity nothing reaches on_evict before the deadline of the insert that wrote it, or without a TTL)",
         clauses=["every key: presence and value id equal the model after every step", "no on_reject, on_evict only for elapsed TTLs", "insert returns true", "nothing swept before its deadline"],
         minimum=dict(quick=dict(ls_histories=300, ls_updates=3000, ls_ticks=10000)),
         assumptions=[],
